@@ -344,7 +344,7 @@ func checkC17(c *Ctx) {
 		"only the clause 'the list remains fully usable afterwards': D1 (the sorted list is moved back, not copied over the header), D2/D3 on the re-insertion paths used by the sorts")
 	c.R.NotCov = append(c.R.NotCov, "permutation, order, stability", "IsSorted's boundary behaviour", "heap order")
 	dtp := map[string]bool{"dt": true}
-	ruleD1(c, dtp, 20)
+	ruleD1In(c, dtp, 5, "cmp.go")
 	ruleD2(c, 4)
 	ruleD3(c, dtp, 6)
 }
@@ -359,7 +359,7 @@ func checkC18(c *Ctx) {
 	lockRules(c, owners, map[string]int{"L1": 8, "L2": 4})
 	ruleL3dFor(c, map[string]bool{"dt": true}, 10)
 	ruleN1(c, map[string]bool{"dt": true}, 0)
-	ruleD1(c, map[string]bool{"dt": true}, 20)
+	ruleD1In(c, map[string]bool{"dt": true}, 5, "set.go")
 }
 
 func checkC19(c *Ctx) {
